@@ -144,6 +144,9 @@ def enumerate_cases(tier):
                 for k, (pa, pb) in enumerate((("", ""), ("milli", ""), ("", "kilo"))):
                     mag = [{"t": "int", "v": 0}, {"t": "float", "v": 100.0}, {"t": "dec", "v": "-40.5"}][(i + j + k) % 3]
                     out.append({"g": "scales", "a": a, "pa": pa, "b": b, "pb": pb, "mag": mag, "mag2": {"t": "float", "v": 300.0}})
+    for mag in ({"t": "int", "v": 3}, {"t": "pow10", "v": 400}, {"t": "pow10", "v": 4300}, {"t": "pow10", "v": -6000}, {"t": "float", "v": 1e300}, {"t": "dec", "v": "1E+5000"}):
+        for compound in (False, True):
+            out.append({"g": "unlinked", "mag": mag, "mag2": {"t": "int", "v": 2}, "compound": compound})
     out += [{"g": "chain", "n": n} for n in ((30, 200, 700) if tier == "quick" else (30, 200, 399, 400, 700, 880, 1200))]
     return out
 
